@@ -256,6 +256,7 @@ class SimCost(object):
     """the user's cost function, played by the simulator"""
     def __init__(self, spec):
         self.spec = spec
+        self.ncalls = 0           # counted calls of THIS object (copies made by dill/deepcopy count for themselves)
     def __call__(self, x, *args):
         run = CUR
         xt = tuple(float(v) for v in x)
@@ -270,6 +271,7 @@ class SimCost(object):
                 return numpy.array(y)
             return y
         n = len(run.evals) + 1
+        self.ncalls = getattr(self, 'ncalls', 0) + 1
         run.evals.append(EvalRec(n, run.task, run.owner, xt, y))   # the call has begun: it counts
         if run.cost_dt is not None:
             run.clock.advance(run.cost_dt(n))
